@@ -36,7 +36,7 @@ def correspond(ck, res, cf, hbin, tag, env=None):
 
 # level currently claimed per property (kept in step with tools/mkmanifest.py); "exploration" = the
 # property theorems are not finished yet: only the correspondence + judge decide
-LEVEL = {"C15": "exploration", "C11": "exploration", "C14": "exploration", "C09": "translation_validation", "C04": "exploration", "C05": "exploration", "C12": "exploration", "C13": "exploration"}
+LEVEL = {"C16": "exploration", "C17": "exploration", "C15": "exploration", "C11": "exploration", "C14": "exploration", "C09": "translation_validation", "C04": "exploration", "C05": "exploration", "C12": "exploration", "C13": "exploration"}
 def level_of(pid):
     return LEVEL.get(pid, "proof")
 
@@ -1650,3 +1650,339 @@ def check_C15(ck, res, replay):
     res.extra["modes"] = modes
     res.extra["model_mismatches"] = mism
     return ck.finish(res, level_of(res.pid), ASSUME_COMMON + ["clap = the record of parsed flags; process exit status 101 = panic"])
+
+
+# ====================================================================== C16 / C17 web service
+STRATS = ["Ground", "Complete", "Stable", "StableCountingA", "StableCountingB", "StableNogood"]
+STRAT_KEY = {"Ground": "ground", "Complete": "complete", "Stable": "stable", "StableCountingA": "stable_counting_a",
+             "StableCountingB": "stable_counting_b", "StableNogood": "stable_nogood"}
+
+
+def hx(s):
+    return "h" + s.encode().hex()
+
+
+def tfu(ac):
+    return "".join("T" if x == "1" else "F" if x == "0" else "u" for x in ac)
+
+
+def opt3_string(o):
+    if o["type"] == "None":
+        return "None"
+    if o["type"] == "Error":
+        return "Error"
+    return "Some:" + ",".join(tfu(x["ac"]) for x in o["content"])
+
+
+def pinfo_string(j):
+    tasks = sorted("Parse" if t["type"] == "Parse" else "Solve:" + t["content"] for t in j["running_tasks"])
+    a = j["acs_per_strategy"]
+    return ("problem %s %s code=%s parse=%s " % (hx(j["name"]), j["parsing_used"], hx(j["code"]), opt3_string(a["parse_only"]))
+            + " ".join("%s=%s" % (s_, opt3_string(a[STRAT_KEY[s_]])) for s_ in STRATS) + " running=" + ",".join(tasks))
+
+
+class ServerRun:
+    """executes a history on the real server, records normalised observations and the model's event lines"""
+
+    def __init__(self, sh, server):
+        self.sh, self.server = sh, server
+        self.clients = {}
+        self.model_lines = []
+        self.obs = []
+        self.raw = []
+        self.snapshots = []      # (client, request, other-documents-unchanged?)
+
+    def client(self, k):
+        if k not in self.clients:
+            self.clients[k] = self.sh.Client()
+        return self.clients[k]
+
+    def docs(self):
+        return {"users": self.server.coll("users"), "probs": self.server.coll("adf-problems")}
+
+    def do(self, k, req):
+        c = self.client(k)
+        before = self.docs()
+        kind = req[0]
+        line = None
+        if kind == "register":
+            st, body = c.register(req[1], req[2]); line = "c %d register %s %s" % (k, hx(req[1]), hx(req[2]))
+        elif kind == "login":
+            st, body = c.login(req[1], req[2]); line = "c %d login %s %s" % (k, hx(req[1]), hx(req[2]))
+        elif kind == "logout":
+            st, body = c.logout(); line = "c %d logout" % k
+        elif kind == "info":
+            st, body = c.info(); line = "c %d info" % k
+        elif kind == "update":
+            st, body = c.update(req[1], req[2]); line = "c %d update %s %s" % (k, hx(req[1]), hx(req[2]))
+        elif kind == "delacc":
+            st, body = c.delete_account(); line = "c %d delacc" % k
+        elif kind == "add":
+            had = c.cookie is not None
+            st, body = c.add(req[1], req[2], req[3])
+            fresh = "unused"
+            if not had and c.cookie is not None:
+                s2, b2 = c.info()
+                if s2 == 200:
+                    fresh = json.loads(b2)["username"]
+            line = "c %d add %s %s %s %s" % (k, hx(req[1]), hx(req[2]), req[3], hx(fresh))
+        elif kind == "solve":
+            st, body = c.solve(req[1], req[2]); line = "c %d solve %s %s" % (k, hx(req[1]), req[2])
+        elif kind == "get":
+            st, body = c.get(req[1]); line = "c %d get %s" % (k, hx(req[1]))
+        elif kind == "list":
+            st, body = c.list(); line = "c %d list" % k
+        elif kind == "delete":
+            st, body = c.delete(req[1]); line = "c %d delete %s" % (k, hx(req[1]))
+        else:
+            raise ValueError(req)
+        self.model_lines.append(line)
+        o = str(st)
+        try:
+            if st == 200 and kind in ("info", "update"):
+                j = json.loads(body); o += " user %s %d" % (hx(j["username"]), 1 if j["temp"] else 0)
+            elif st == 200 and kind == "get":
+                o += " " + pinfo_string(json.loads(body))
+            elif st == 200 and kind == "list":
+                o += " problems " + " | ".join(sorted(pinfo_string(x) for x in json.loads(body)))
+        except (ValueError, KeyError) as e:
+            o += " UNPARSEABLE " + repr(e)
+        self.obs.append(o)
+        self.raw.append((k, req, st, body))
+        after = self.docs()
+        self.snapshots.append((k, req, before, after))
+        # background tasks: wait until the problem is idle, then tell the model that its oldest pending task completed
+        if st == 200 and kind in ("add", "solve"):
+            c.wait_idle(req[1])
+            self.model_lines.append("done 0 0")
+        return st, body
+
+    def dump(self):
+        d = self.docs()
+        us = sorted("%s:%s" % (hx(u["username"]), "temp" if u.get("password") is None else "perm") for u in d["users"])
+        ps = sorted("%s/%s:%s:%s" % (hx(p["username"]), hx(p["name"]), p["adf"]["type"], hx(p["code"])) for p in d["probs"])
+        self.model_lines.append("dump")
+        self.obs.append("dump users=%s probs=%s" % (",".join(us), ",".join(ps)))
+
+
+def graph_faithful(doc, strategy_key, names, conds):
+    """checks every stored graph of one strategy against the stored node table; returns complaint or None"""
+    if doc["adf"]["type"] != "Some":
+        return None
+    nodes = [(int(n["var"]), int(n["lo"]), int(n["hi"])) for n in doc["adf"]["content"]["bdd"]]
+    order = doc["adf"]["content"]["ordering"]["names"]
+    res = doc["acs_per_strategy"][strategy_key]
+    if res["type"] != "Some":
+        return None
+    for entry in res["content"]:
+        ac = [int(x) for x in entry["ac"]]
+        g = entry["graph"]
+        # the solve task rebuilds the diagram and may have grown it: only handles of the stored table can be judged here
+        roots = set(ac)
+        reach = set()
+        stack = [r for r in roots]
+        ok_table = all(r < len(nodes) for r in roots)
+        if not ok_table:
+            continue
+        while stack:
+            h = stack.pop()
+            if h in reach:
+                continue
+            reach.add(h)
+            if h >= 2:
+                stack += [nodes[h][1], nodes[h][2]]
+        if set(int(k) for k in g["node_labels"]) != reach:
+            return "graph nodes %s are not exactly the nodes reachable from the roots %s" % (sorted(g["node_labels"]), sorted(reach))
+        for h in reach:
+            lbl = g["node_labels"][str(h)]
+            exp = "BOT" if h == 0 else "TOP" if h == 1 else order[nodes[h][0]]
+            if lbl != exp:
+                return "node %d is labelled %s, the table says %s" % (h, lbl, exp)
+        lo = {int(a): int(b) for a, b in g["lo_edges"]}
+        hi = {int(a): int(b) for a, b in g["hi_edges"]}
+        for h in reach:
+            if h >= 2 and (lo.get(h) != nodes[h][1] or hi.get(h) != nodes[h][2]):
+                return "edges of node %d differ from the table" % h
+        if any(h < 2 for h in list(lo) + list(hi)):
+            return "a terminal has outgoing edges"
+        for i, r in enumerate(ac):
+            if order[i] not in g["tree_root_labels"].get(str(r), []):
+                return "node %d is not labelled as root of %s" % (r, order[i])
+        # following edges from the root of s, under the truth values of the shown model, evaluates ac_s
+        # restricted by that model (for parse_only the roots are the conditions themselves); small instances
+        n = len(order)
+        if n <= 8:
+            model = tfu(entry["ac"]) if strategy_key != "parse_only" else "u" * n
+            tts, _, _ = oracle.truth_tables(nodes, n)
+            for i, r in enumerate(ac):
+                f = conds.get(order[i], ("bot",))
+                for x in range(1 << n):
+                    xf = x
+                    for j in range(n):
+                        if model[j] == "T":
+                            xf |= 1 << j
+                        elif model[j] == "F":
+                            xf &= ~(1 << j)
+                    env = {order[j]: bool(xf >> j & 1) for j in range(n)}
+                    if model[i] == "T":
+                        v = True
+                    elif model[i] == "F":
+                        v = False
+                    else:
+                        v = oracle.eval_formula(f, env)
+                    if bool(tts[r] >> xf & 1) != v:
+                        return "the diagram under the root of %s does not evaluate its condition restricted by the model %s" % (order[i], model)
+    return None
+
+
+def atoms_of(f):
+    if f[0] == "atom":
+        return {f[1]}
+    out = set()
+    for x in f[1:]:
+        if isinstance(x, tuple):
+            out |= atoms_of(x)
+    return out
+
+
+def well_declared(text):
+    """grammatical, and every ac fact and atom names a declared statement (otherwise construction panics)"""
+    if py_grammar(text) is None:
+        return False
+    names, conds = oracle.parse_adf_text(text)
+    return all(nm in names for nm in conds) and all(atoms_of(f) <= set(names) for f in conds.values())
+
+
+def server_common(ck, res, pid):
+    common_front(ck, res, pid, ties=["TieFilters"])
+    import server_harness as sh
+    binary, err = sh.build_server()
+    if binary is None:
+        res.broken.append(("build", "adf-bdd-server (cargo build -p adf-bdd-server)", err))
+    return sh, binary
+
+
+def check_C16(ck, res, replay):
+    sh, binary = server_common(ck, res, "C16")
+    rng = gen.Rng(res.seed ^ 0xC16)
+    quick = res.tier == "quick"
+    cf = gen.CaseFile()
+    runs = []
+    nontriv = set()
+    if binary:
+        server = sh.Server(binary)
+        try:
+            nh = 14 if quick else 250
+            run = ServerRun(sh, server)      # one continuous session: the database persists across histories
+            texts = {}
+            for hno in range(nh):
+                cl = hno                      # one browser per history
+                user = "u%dx%d" % (hno, rng.below(1000))
+                anon = rng.chance(1, 4)
+                if not anon:
+                    run.do(cl, ("register", user, "pw"))
+                    run.do(cl, ("login", user, "pw"))
+                nprob = 1 + rng.below(2)
+                for pi in range(nprob):
+                    bad = rng.chance(1, 6)
+                    if bad:
+                        text = rng.pick(["s(a).ac(b,a).", "s(a).ac(a,b).", "s(a)", "s(a).ac(a,and(a)).", "s(a).x", " s(a)."])
+                    else:
+                        text, n = gen.gen_adf(rng, nmax=5, depth=3, style=0, layout={"shuffle": rng.chance(1, 3)})
+                    name = "h%dp%d" % (hno, pi)
+                    texts[name] = text
+                    run.do(cl, ("add", name, text, rng.pick(["Naive", "Hybrid"])))
+                    run.do(cl, ("get", name))
+                    for st_ in rng.shuffle(STRATS)[: 2 + rng.below(5)]:
+                        run.do(cl, ("solve", name, st_))
+                        if rng.chance(1, 3):
+                            run.do(cl, ("get", name))
+                        if rng.chance(1, 6):
+                            run.do(cl, ("solve", name, st_))       # already solved: conflict
+                    run.do(cl, ("get", name))
+                run.do(cl, ("list",))
+                nontriv.add(hno)
+            run.dump()
+            cid = cf.add("SERVER", run.model_lines, meta={"texts": texts})
+            runs.append((cid, run, texts))
+        finally:
+            server.close()
+    model, f2 = ck.run_sharded(os.path.join(ck.ROOT, "ocaml", "driver"), cf.lines, "C16.model")
+    if f2:
+        res.broken.append(("correspondence", "model driver process failed", str(f2)))
+    mism = 0
+    nsolved = 0
+    for cid, run, texts in runs:
+        m = [l.split(" ", 1)[1] for l in model.get(cid, [])]
+        if m != run.obs:
+            mism += 1
+            if mism <= 4:
+                d = [(a, b) for a, b in zip(run.obs, m) if a != b][:2]
+                res.broken.append(("correspondence", "server history %s: implementation and model differ" % cid,
+                                   json.dumps({"events": run.model_lines, "first_differences": d, "lengths": [len(run.obs), len(m)]})[:3000]))
+        # judge the real server's final documents against the definitions
+        for k, req, st, body in run.raw:
+            if req[0] == "get" and st == 200:
+                j = json.loads(body)
+                text = texts[j["name"]]
+                g = py_grammar(text)
+                a = j["acs_per_strategy"]
+                declared_ok = well_declared(text)
+                if declared_ok:
+                    names, conds = oracle.parse_adf_text(text)
+                    o = oracle.AdfOracle(names, conds)
+                if a["parse_only"]["type"] == "Some" and not declared_ok:
+                    res.violations.append({"key": "server:parsed-malformed", "what": "unparseable code is stored as parsed", "events": run.model_lines, "text": text})
+                if a["parse_only"]["type"] == "Error" and declared_ok:
+                    res.violations.append({"key": "server:rejected-valid", "what": "well-formed code reported as error", "events": run.model_lines, "text": text})
+                if j["running_tasks"]:
+                    key = "server:running-after-panic" if (g is not None and not declared_ok) else "server:running-stale"
+                    res.violations.append({"key": key, "what": "a task that has ended is still reported as running: %s" % j["running_tasks"],
+                                           "events": run.model_lines, "text": text})
+                if declared_ok:
+                    for s_ in STRATS:
+                        r = a[STRAT_KEY[s_]]
+                        if r["type"] == "Some":
+                            nsolved += 1
+                            got = [tfu(x["ac"]) for x in r["content"]]
+                            exp = {"Ground": [o.grounded()], "Complete": o.complete()}.get(s_) or (o.stable() if s_ not in ("Ground", "Complete") else [])
+                            if s_ == "Complete":
+                                exp = o.complete()
+                            elif s_ == "Ground":
+                                exp = [o.grounded()]
+                            else:
+                                exp = o.stable()
+                            if sorted(got) != sorted(exp):
+                                res.violations.append({"key": "server:wrong-answer:" + s_, "what": "stored models for %s are %s, the definitions give %s" % (s_, got, exp),
+                                                       "events": run.model_lines, "text": text})
+                        elif r["type"] == "Error":
+                            res.violations.append({"key": "server:solve-error:" + s_, "what": "solving a well-formed ADF ended in an error", "events": run.model_lines, "text": text})
+        # graphs, from the stored documents
+        if run.snapshots:
+            for doc in run.snapshots[-1][3]["probs"]:
+                text = texts.get(doc["name"])
+                if text is None or doc["code"] != text or not well_declared(text):
+                    continue        # (the stand-in database is shared by all histories of this run)
+                names, conds = oracle.parse_adf_text(text)
+                for sk in ["parse_only"] + list(STRAT_KEY.values()):
+                    if sk == "parse_only" or True:
+                        c = graph_faithful(doc, sk, names, conds) if doc["acs_per_strategy"][sk]["type"] == "Some" else None
+                        if c:
+                            res.violations.append({"key": "server:graph:" + sk, "what": c, "events": run.model_lines, "text": text})
+    res.cov["evaluations"] = sum(len(r.obs) for _, r, _ in runs)
+    res.cov["distinct_nontrivial"] = len(nontriv)
+    res.cov["rule"] = ("request histories against the real server binary (MongoDB replaced by the in-process OP_MSG stand-in): register/login or anonymous (temporary user), "
+                       "add with both parsing strategies (well-formed and malformed / undeclared-statement codes), gets, the six strategies in random order with repeated "
+                       "solves and gets, list; after every started task the harness waits until the problem is idle; evaluations = requests; non-trivial = distinct histories; "
+                       "stored models judged against brute-force semantics, graphs against the stored node table, everything compared with the Coq model of the handlers")
+    res.cov["samples"] = [runs[0][1].model_lines[:12]] if runs else ["(server not built)"]
+    res.extra["histories"] = len(runs)
+    res.extra["solved_strategies_checked"] = nsolved
+    res.extra["model_mismatches"] = mism
+    return ck.finish(res, level_of(res.pid), ASSUME_COMMON + SERVER_ASSUME)
+
+
+SERVER_ASSUME = ["actix-web / actix-identity / actix-session: request routing and cookie <-> username (exercised, not modelled)",
+                 "tokio spawn_blocking + timeout: a task either completes, panics or times out (the 120 s timeout itself is not exercised)",
+                 "MongoDB = the stub's subset (equality filters, $set, replacement, unique username); argon2 = an injective digest",
+                 "requests are serialised by the harness: real concurrent request handling is not exhibited"]
